@@ -796,9 +796,18 @@ func genWorkload(seed uint64, deep bool) *Workload {
 		nTasks = 6 + rng.Intn(6)
 		maxOps = 1
 	}
+	// "chain" workloads: every value of a type with a google.protobuf.Any field carries a chain of
+	// nested anys, so that several tasks are inside re-entrant codec calls at the same time
+	chains := len(pool) == 1 && pool[0].Name == "test.schema.v1.FullSchema" && rng.Bool(0.5)
 	mkOp := func() OpSpec {
 		ti := pool[rng.Intn(len(pool))]
 		op := OpSpec{Kind: opKinds[rng.Intn(len(opKinds))], Type: ti.Name, ValSeed: rng.Uint64()}
+		if chains {
+			op.ValSeed &^= 3 // newPopulated builds a chain when ValSeed%4 == 0
+			if rng.Bool(0.7) {
+				op.Kind = []string{"encode", "encode_any", "walk"}[rng.Intn(3)]
+			}
+		}
 		if (op.Kind == "decode" || op.Kind == "query" || op.Kind == "decode_any") && rng.Bool(0.2) {
 			op.Mutate = 1 + rng.Intn(4) // failing operation by construction
 		}
